@@ -237,6 +237,16 @@ Proof. exact RecsTotal.ASetT.read_set_advances. Qed.
 Theorem C05_aset_reserialize_no_panic : forall f v m k, ASet.parse f = Ok v -> ASet.serialize m v <> Panic k.
 Proof. exact RecsTotal.ASetT.reserialize_no_panic. Qed.
 
+(* a bin header that declares more than the buffer holds is rejected by the aset / asset-binary readers too *)
+Theorem C05_aset_header_rejected : forall f dsz pc lc,
+  u32_at LE f 4 = Some dsz -> u32_at LE f 8 = Some pc -> u32_at LE f 12 = Some lc ->
+  lenN f < dsz + 4 * pc + 8 * lc + 32 -> ASet.parse f = Err ETooSmall.
+Proof. exact (C05Rejects.layered_header_rejected ASet.from_archive LE). Qed.
+Theorem C05_asset_header_rejected : forall f dsz pc lc,
+  u32_at LE f 4 = Some dsz -> u32_at LE f 8 = Some pc -> u32_at LE f 12 = Some lc ->
+  lenN f < dsz + 4 * pc + 8 * lc + 32 -> AssetBin.parse f = Err ETooSmall.
+Proof. exact (C05Rejects.layered_header_rejected AssetBin.from_archive LE). Qed.
+
 Theorem C05_asset_parse_no_panic : forall f k, AssetBin.parse f <> Panic k.
 Proof. exact RecsTotal.AssetT.parse_no_panic. Qed.
 Theorem C05_asset_parse_fuel_suffices : forall f, AssetBin.parse f <> Err EOutOfFuel.
